@@ -1368,7 +1368,7 @@ struct array : static_array<T, D, Alloc> {
 		if(array::extensions() == other.extensions()) {
 			this->operator()() = std::forward<Range>(other);
 			//  static_::operator=(other);
-		} else if(this->num_elements() == other.extensions().num_elements()) {
+		} else if(this->num_elements() == other.extensions().num_elements() && this->num_elements() != 0) {  // empty sources have no unique extensions to reshape to
 			reshape(other.extensions());
 			//  static_::operator=(other);
 			this->operator()() = std::forward<Range>(other);
@@ -1386,7 +1386,7 @@ struct array : static_array<T, D, Alloc> {
 		if(array::extensions() == other.extensions()) {
 			this->operator()() = other;
 			//  static_::operator=(other);
-		} else if(this->num_elements() == other.extensions().num_elements()) {
+		} else if(this->num_elements() == other.extensions().num_elements() && this->num_elements() != 0) {  // empty sources have no unique extensions to reshape to
 			reshape(other.extensions());
 			this->operator()() = other;
 			//  static_::operator=(other);
